@@ -12,10 +12,10 @@ using namespace vf;
 
 namespace {
 
-struct Prog { int route; int nconn; int tsize; int udp; int close_order; int lat; int reuse; /* 1: the first connection's two socket objects are closed and used for another connection */ };
+struct Prog { int route; int nconn; int tsize; int udp; int close_order; int lat; int reuse; /* 1: the first connection's two socket objects are closed and used for another connection */ int late = 0; /* 1: the traffic starts 50 ms before virtual time crosses the next multiple of 2^32 microseconds */ };
 // route: 0 loss-free, 1 lossy (tail-drop queue); tsize index; udp: 0 none, 1 small both ways, 2 mixed sizes incl. 65507; lat: 0 1ms, 1 700ms (timestamps cross seconds)
 int const TSIZES[] = { 1, 3000, 20000 };
-std::string prog_str(Prog const& p) { return fmt("route=%s conns=%d tcp-bytes=%d udp=%d close-order=%d latency=%s%s", p.route ? "lossy" : "loss-free", p.nconn, TSIZES[p.tsize], p.udp, p.close_order, p.lat ? "700ms" : "1ms", p.reuse ? " +socket-reuse" : ""); }
+std::string prog_str(Prog const& p) { return fmt("route=%s conns=%d tcp-bytes=%d udp=%d close-order=%d latency=%s%s", p.route ? "lossy" : "loss-free", p.nconn, TSIZES[p.tsize], p.udp, p.close_order, p.lat ? "700ms" : "1ms", p.reuse ? " +socket-reuse" : "") + (p.late ? " +starting 50ms before a multiple of 2^32 us of virtual time" : ""); }
 
 struct Expect { int64_t t; bool tcp; std::string src, dst; int sport, dport; std::string payload; bool eof; bool new_connection = false; /* marker: a SYN from client port sport was seen: sequence numbers of that connection start over */ };
 
@@ -44,6 +44,14 @@ Res run_prog(Prog const& p, std::string const& file)
 		};
 		sim::simulation sim(w);
 		sim.log_pcap(file.c_str());
+		if (p.late) {
+			// virtual time is process-wide and only moves forward: go to 50 ms before the next multiple of 2^32 us
+			int64_t const W = int64_t(1) << 32;
+			int64_t now_us = std::chrono::duration_cast<std::chrono::microseconds>(sim::chrono::high_resolution_clock::now().time_since_epoch()).count();
+			int64_t target = ((now_us + 50000) / W + 1) * W - 50000;
+			asio::high_resolution_timer lt(sim.get_io_context()); lt.expires_after(std::chrono::microseconds(target - now_us)); lt.async_wait([](error_code const&) {});
+			sim.run();
+		}
 		asio::io_context nA(sim, addr("10.0.0.1")), nB(sim, addr("10.0.1.1"));
 		struct Conn { std::unique_ptr<ip::tcp::socket> c, s; std::unique_ptr<ip::tcp::acceptor> a; std::string wc, ws, rc, rs; int64_t sc = 0, ss = 0; std::vector<char> bc, bs; bool up = false; int ups = 0; bool c_closed = false, s_closed = false; };
 		std::vector<std::unique_ptr<Conn>> conns;
@@ -189,7 +197,7 @@ struct PcapEngine : Engine
 	uint64_t units(Args const& a) override
 	{
 		progs.clear();
-		for (int r = 0; r < 2; ++r) for (int n = 1; n <= (a.thorough() ? 3 : 2); ++n) for (int t = 0; t < 3; ++t) for (int u = 0; u < 3; ++u) for (int co = 0; co < 2; ++co) for (int l = 0; l < 2; ++l) for (int ru = 0; ru < 2; ++ru) progs.push_back(Prog{ r, n, t, u, co, l, ru });
+		for (int r = 0; r < 2; ++r) for (int n = 1; n <= (a.thorough() ? 3 : 2); ++n) for (int t = 0; t < 3; ++t) for (int u = 0; u < 3; ++u) for (int co = 0; co < 2; ++co) for (int l = 0; l < 2; ++l) for (int ru = 0; ru < 2; ++ru) for (int late = 0; late < 2; ++late) progs.push_back(Prog{ r, n, t, u, co, l, ru, late });
 		return progs.size();
 	}
 	void run_unit(uint64_t u, Ctx& ctx) override
